@@ -181,6 +181,7 @@ class Gen:
     def comment(s, what="note"):
         s.ncomment += 1
         body = s.r.choice(["doc", "describes it", "x := 1;", "TODO fix", "if (a) {", "first a, then b, c", "f(x, y);"] + (["näme ünicode", "€uro 😀 ok"] if s.nonascii else []))
+        if s.r.random() < .04: body += "\rj := 2; 'x"      # a lone CR does not end a comment (only LF does): still comment text
         return Tok("comment", "// %s %s %d" % (what, body, s.ncomment))
 
     # ---- declarations
@@ -279,6 +280,8 @@ class Gen:
             cand = [p.name for p in s.P.procs if p.name not in proc.names and p is not proc] + [b for b in ("printi", "readi") if b not in proc.names]
             # ... or a global type (the type is then not usable in later variable declarations of this procedure)
             cand += [t.name for t in (getattr(proc, "visible_types", None) or s.P.types) if t.name not in proc.names]
+            # ... or the enclosing procedure itself (it can then not call itself)
+            if proc.name not in proc.names: cand += [proc.name]
             if cand:
                 n = r.choice(cand); proc.names.add(n); return n
         for _ in range(20):
